@@ -175,7 +175,14 @@ func c06Gen(rt *rapid.T) wProg {
 		case x < 13:
 			// ownership transfer attempt: grant by the (original) owner, optionally accepted
 			tgt := gInt(rt, 1, 2, "heir")
+			if gPct(rt, 30) {
+				// the store fails while the grant (or, below, the acceptance) is written
+				p.Ops = append(p.Ops, wOp{K: "fault", N: gInt(rt, 1, 3, "fk"), A: gPick(rt, []string{"", "SubsUpdate", "SubsUpdate"}, "fm")})
+			}
 			p.Ops = append(p.Ops, wOp{K: "set", S: 0, T: "g0", A: "given", U: tgt, B: gPick(rt, []string{"JRWPASDO", "JRWPSO", "O"}, "grant")})
+			if gPct(rt, 15) {
+				p.Ops = append(p.Ops, wOp{K: "fault", N: gInt(rt, 1, 3, "fk2"), A: gPick(rt, []string{"", "SubsUpdate", "TopicOwnerChange"}, "fm2")})
+			}
 			if gPct(rt, 70) {
 				for hs := 1; hs < len(p.Sess); hs++ {
 					if p.Sess[hs] == tgt {
@@ -262,6 +269,12 @@ type c06Obs struct {
 	pending   int
 	grants    map[types.Uid]bool // users whose given ∋ O was written by a step of the then-owner
 	owner     map[string]types.Uid
+	// faultTaint: topics whose ownership rows were left half-written by a request during which the
+	// store failed (the hand-over makes several store writes): what a failed request leaves behind is
+	// C08's subject (and C06 does not quantify over store failures); such a topic is not judged further.
+	// A failed request which leaves the rows intact does not taint: what later fault-free requests do
+	// with whatever it left in memory is judged.
+	faultTaint map[string]bool
 }
 
 func (o *c06Obs) Before(w *wWorld, op *wOp) { o.pre = mem.A.Snapshot() }
@@ -279,6 +292,16 @@ func (o *c06Obs) After(w *wWorld, st *wStep) *kit.Viol {
 		}
 		name := tr.Name
 		owners := storeOwners(post, name)
+		if o.faultTaint[name] {
+			continue
+		}
+		if st.Fired && (len(owners) != 1 || tr.Owner != owners[0]) {
+			if o.faultTaint == nil {
+				o.faultTaint = map[string]bool{}
+			}
+			o.faultTaint[name] = true
+			continue
+		}
 		if len(owners) != 1 {
 			var who []string
 			for _, u := range owners {
@@ -423,6 +446,7 @@ func TestC06Owner(t *testing.T) {
 // ---------------------------------------------------------------- C07
 
 type c07Obs struct {
+	faultTaint map[string]bool // topics in which a request changed rows while the store was failing: not judged further (C08's subject)
 	tainted map[string]bool
 	preAtt  map[int]map[string]bool
 	known      func(*kit.Viol) bool
@@ -538,6 +562,15 @@ func (o *c07Obs) After(w *wWorld, st *wStep) *kit.Viol {
 		grpTopic := types.ChnToGrp(topic)
 		if grpTopic == "" {
 			grpTopic = topic
+		}
+		if st.Fired {
+			if o.faultTaint == nil {
+				o.faultTaint = map[string]bool{}
+			}
+			o.faultTaint[grpTopic] = true
+		}
+		if o.faultTaint[grpTopic] {
+			continue
 		}
 		target := k.user
 		tgt := w.userIdx(target)
